@@ -373,8 +373,7 @@ func (r *rwRT) ruleTmplYieldFrom() {
 			_, stmt := r.heapNode(st, "ExprStmt", map[string]AV{"X": call})
 			in := r.interp(rwConfig{root: mk, boundaries: map[string]bool{"rangeIter": false, "checkYieldCall": true, "rewriteYieldFrom": false}})
 			in.MaxDepth = 16
-			in.Fields["r.rewriter.coImportedName"] = mkString("co")
-			in.Fields["r.coImportedName"] = mkString("co")
+			r.setImportNames(in, "co", "")
 			in.OnCall = wrapOnCall(in.OnCall, func(cc *CallCtx) []Answer {
 				if cc.Fn != nil && cc.Fn.Name() == "Node" && cc.Fn.Signature.Recv() != nil && strings.Contains(cc.Fn.Signature.Recv().Type().String(), "astutil.Cursor") {
 					return []Answer{{Ret: []AV{stmt}, NoEvent: true}}
@@ -1027,8 +1026,7 @@ func (r *rwRT) runYieldFunc() (o Outcome, bodyRef, fieldRef Ref, pos string, err
 	ftRef, _ := r.heapNode(st, "FuncType", map[string]AV{"Results": resRef})
 	in := r.interp(rwConfig{root: fn, blockOracles: true, boundaries: map[string]bool{"rewriteYieldFunc": false, "rewriteYieldFuncBody": false, "rewriteYieldFuncResult": false}})
 	in.MaxDepth = 16
-	in.Fields["r.rewriter.seqImportedName"] = mkString("seq")
-	in.Fields["r.seqImportedName"] = mkString("seq")
+	r.setImportNames(in, "", "seq")
 	in.OnCall = wrapOnCall(in.OnCall, func(cc *CallCtx) []Answer {
 		if cc.Fn != nil && inRw(cc.Fn) && cc.Fn.Name() == "yieldFuncRetParamTy" {
 			return []Answer{{Ret: []AV{exprLeaf(r, "T")}, NoEvent: true}}
